@@ -2,7 +2,7 @@
 from .C02 import e2_jobs, META as _M
 
 META = dict(_M)
-CLASSES = ["contracts.C09_all:LinearEstimate"]
+CLASSES = ["contracts.C09_all:LinearEstimate", "contracts.C09_all:ModelInvertedUnderC09"]
 
 
 def jobs(tier, seed):
